@@ -126,6 +126,12 @@ def run_one(choices, params):
                 # socket time-outs: only where writes cannot block (a write time-out is a genuine failure)
                 a.settimeout(0.25)
                 b.settimeout(0.5)
+            elif cfg.cap < 100000 and fatal is None and mode == "random" and c.draw(3) == 0:
+                # stalled receiver: the sender has a time-out, the buffers are small and the receiver is slow, so a write
+                # may time out part-way through a chunk.  That is a genuine failure of the sender (EOFError, stream closed);
+                # the receiver must still see an unaltered prefix of the packets and then end-of-stream.
+                info["stall"] = True
+                a.settimeout(c.pick((0.25, 0.5)))
         else:
             fos = patch.MODS["os"]
             r1, w1 = fos.pipe()
@@ -197,14 +203,14 @@ def run_one(choices, params):
             dead = False
             try:
                 for op, d, i in script[who]:
-                    if c.flip(50):
+                    if c.flip(50) or (info.get("stall") and who == "B" and c.flip(500)):
                         sim.sleep(0.125 * (1 + c.draw(8)))
                     if op == "send":
                         try:
                             ch.send(sent_data[d][i])
                         except EOFError:
                             info["eof"][who + ".send"] = i
-                            if fatal is None:
+                            if fatal is None and not (info.get("stall") and sim.stats.get("sock:send-timeout")):
                                 raise core.Violation("transient-surfaced", "%s.send raised EOFError without a fatal fault" % who)
                             check_dead(ch, who)
                             dead = True
@@ -226,7 +232,7 @@ def run_one(choices, params):
                             data = ch.recv()
                         except EOFError:
                             info["eof"][who + ".recv"] = i
-                            if fatal is None:
+                            if fatal is None and not (info.get("stall") and sim.stats.get("sock:send-timeout")):
                                 raise core.Violation("transient-surfaced", "%s.recv raised EOFError without a fatal fault" % who)
                             check_dead(ch, who)
                             dead = True
@@ -256,7 +262,7 @@ def run_one(choices, params):
         # prefix rule (also true in clean runs, where it must be the whole sequence)
         for d in ("ab", "ba"):
             nrecv = len(info["recv"][d])
-            if fatal is None and nrecv != len(sent_data[d]):
+            if fatal is None and not (info.get("stall") and sim.stats.get("sock:send-timeout")) and nrecv != len(sent_data[d]):
                 raise core.Violation("packet-lost", "direction %s: %d of %d received" % (d, nrecv, len(sent_data[d])))
         for t in ts:
             if t.exc is not None:
